@@ -75,6 +75,33 @@ def run(ctx):
             body = [("N", base_t + j, j % 5, 0 if shape == "flat" else (3 * min(j, n_ - j))) for j in range(n_)]
             special.append({"id": f"C03-centuries-{n_}-{shape}", "res": 192, "body": body, "tempo": [[0, 1], [base_t, 400000000]]})
     _notes._judge(ctx, special, "C03", "special tracks")
+    # a lane line written TWICE on one tick with different lengths: which of the two is "the lane's written length" is not
+    # fixed by the property (such sections are outside WellFormedTrack), but the FORM of the answer is, whatever the input:
+    # one number when the reported lanes agree, a tuple only when at least two of them differ (Props!C03V, evaluated on
+    # every record before the domain test)
+    rep_cases = []
+    for k in range(ctx.pick(60, 600)):
+        lanes = r.sample(range(5), r.choice([1, 1, 2, 3, 5]))
+        a, b = r.choice([(10, 20), (0, 7), (96, 0), (5, 5), (1, 2)])
+        body, t = [("N", 0, 4, 3)], 50
+        for g in range(r.choice([1, 2, 4])):
+            lines = []
+            for ln in lanes:
+                lines.append(("N", t, ln, r.choice([a, b])))
+            twice = r.choice(lanes)
+            last = r.choice([a, b])
+            lines.append(("N", t, twice, last))
+            if r.random() < 0.5:
+                # ... so that every lane ENDS on the same length (last line wins) or BEGINS on it (first line wins)
+                lines = [("N", t, ln, a) for ln in lanes] + [("N", t, twice, b), ("N", t, twice, a)]
+            if r.random() < 0.4:
+                r.shuffle(lines)
+            if r.random() < 0.3:
+                lines.append(("N", t, r.choice([5, 6]), 9))
+            body += lines
+            t += r.choice([10, 100, 1000])
+        rep_cases.append({"id": f"C03-rep{k}", "res": 192, "body": body})
+    _notes._judge(ctx, rep_cases, "C03", "lane lines repeated with different lengths")
     # TRACE: seeded wide-domain tracks with many sustains over multi-segment tempo maps
     cases = _notes.seeded_tracks(ctx, "C03", ctx.pick(400, 6000), sustain_p=0.7)
     _notes._judge(ctx, cases, "C03", "seeded tracks", max_skip_ratio=0.01)
